@@ -275,6 +275,7 @@ func c15SeqSetup(k connCfg, script string, reader string) func(c *fw.Ctx, name s
 						}
 					})
 				}
+				closeNow := func() { conn.CloseNow() }
 				w.GoHarness("peer", false, func() {
 					for i := 0; i < m; i++ {
 						var pl []byte
@@ -309,6 +310,11 @@ func c15SeqSetup(k connCfg, script string, reader string) func(c *fw.Ctx, name s
 						case 'l':
 							vtime.Sleep(time.Second)
 							pong()
+						case 'c':
+							// no pong: half a second later the application closes the connection
+							// (CloseNow: no Close frame is ever received)
+							vtime.Sleep(500 * time.Millisecond)
+							closeNow()
 						case 'L':
 							// the pong comes after 6 s; this Ping's caller allows 30 s
 							vtime.Sleep(6 * time.Second)
@@ -319,7 +325,7 @@ func c15SeqSetup(k connCfg, script string, reader string) func(c *fw.Ctx, name s
 				w.GoHarness("pinger", true, func() {
 					for i := 0; i < m; i++ {
 						d := time.Second
-						if script[i] == 'L' {
+						if script[i] == 'L' || script[i] == 'c' {
 							d = 30 * time.Second
 						}
 						ctx, cancel := vctx.WithTimeout(bg, d)
@@ -328,6 +334,14 @@ func c15SeqSetup(k connCfg, script string, reader string) func(c *fw.Ctx, name s
 						tick++
 						doneTick[i] = tick
 						done[i] = true
+					}
+					if strings.Contains(script, "c") {
+						// on a closed connection further Pings fail at once, every one of them
+						for j := 0; j < 2; j++ {
+							ctx, cancel := vctx.WithTimeout(bg, time.Second)
+							conn.Ping(ctx)
+							cancel()
+						}
 					}
 				})
 			})
@@ -387,7 +401,7 @@ func c15SeqScenarios(tier string) []scenario {
 			scripts = append(scripts, cur)
 			return
 		}
-		for _, x := range "adwlL" {
+		for _, x := range "adwlLc" {
 			gen(cur + string(x))
 		}
 	}
